@@ -408,6 +408,30 @@ let run_cmd (name : string) (major : string) (minor : string) (args : string lis
         | None -> None) c.CommandIR.c_fields in
     string_of_coq c.CommandIR.c_msg ^ " " ^ (if parts = [] then "-" else Stdlib.String.concat ";" parts)
 
+(* ---- C20 ---- *)
+let ids (s : string) = if s = "" then [] else Stdlib.List.map (fun x -> n_of_int (int_of_string x)) (Stdlib.String.split_on_char '.' s)
+let run_resolve (hosts : string list) : string =
+  let hs = Stdlib.List.map (fun w -> match Stdlib.String.split_on_char ',' w with
+      | [name; lit; mdns; os] ->
+        { Resolver.h_name = coq_string_of name;
+          Resolver.h_literal = (if lit = "-" then None else Some (n_of_int (int_of_string lit)));
+          Resolver.h_mdns = (if mdns = "E" then Resolver.MdnsErr else match Stdlib.String.split_on_char '/' mdns with
+              | [a; b] -> Resolver.MdnsOk (ids a, ids b) | _ -> failwith "mdns");
+          Resolver.h_os = (if os = "E" then Resolver.OsErr else Resolver.OsOk (ids os)) }
+      | _ -> failwith ("host " ^ w)) hosts in
+  let (res, calls) = Resolver.resolve hs in
+  let cs = Stdlib.String.concat ";" (Stdlib.List.map (function Resolver.CallMdns n -> "M:" ^ string_of_coq n | Resolver.CallOs h -> "O:" ^ string_of_coq h) calls) in
+  (match res with
+   | Datatypes.Coq_inl l -> "OK " ^ Stdlib.String.concat "," (Stdlib.List.map (fun a -> string_of_int (int_of_n a)) l)
+   | Datatypes.Coq_inr Resolver.ErrOs -> "ERR os" | Datatypes.Coq_inr Resolver.ErrMdns -> "ERR mdns" | Datatypes.Coq_inr Resolver.ErrNoResults -> "ERR none")
+  ^ " calls=" ^ cs
+let run_zc (ops : string list) : string =
+  let os = Stdlib.List.map (function "set" -> Resolver.ZSetInstance | "get" -> Resolver.ZGet | "infoOK" -> Resolver.ZServiceInfo true
+                                     | "infoERR" -> Resolver.ZServiceInfo false | "close" -> Resolver.ZClose | w -> failwith ("zop " ^ w)) ops in
+  let (_, evs) = Resolver.zrun { Resolver.z_created = false; Resolver.z_inst = None } os in
+  Stdlib.String.concat "," (Stdlib.List.map (function Resolver.ZCreated -> "created" | Resolver.ZClosed Resolver.App -> "closedApp"
+                                                      | Resolver.ZClosed Resolver.Lib -> "closedLib" | Resolver.ZRaise -> "raise") evs)
+
 let handle (line : string) : string =
   match words line with
   | "venc" :: v :: [] -> hex_of_bytes (Varint.enc (n_of_hex v))
@@ -440,6 +464,8 @@ let handle (line : string) : string =
      | None -> "none"
      | Some l -> if l = [] then "-" else Stdlib.String.concat "," (Stdlib.List.map (fun (t, p) -> hex_of_n t ^ ":" ^ hex_of_bytes p) l))
   | "client" :: nz :: ex :: ka :: scr :: labels -> run_client (nz = "1") (ex = "1") (int_of_string ka) scr labels
+  | "resolve" :: hosts -> run_resolve hosts
+  | "zc" :: ops -> run_zc ops
   | "cmd" :: name :: major :: minor :: args -> run_cmd name major minor args
   | ["fixf"; sg; m; e] ->
     let ((s1, m1), e1) = FloatFix.fix_float (sg = "1") (z_of_string m) (z_of_string e) in
